@@ -186,6 +186,17 @@ def registers(draw):
         regs[n] = draw(word)
     regs['BC'] = draw(st.one_of(st.sampled_from([0x7FFD, 0xFFFD, 0xBFFD, 0x00FE, 0x7FFE, 0x0001, 0x0100, 0x0002]), word))
     regs['HL'] = draw(word)
+    # operand pairs that meet exactly at a carry boundary (sum 0x10000, 0xFFFF or 0): uniformly drawn words hit them
+    # with probability 2^-16 per instruction
+    rel = draw(st.sampled_from([0, 0, 0, 1, 2, 3]))
+    if rel:
+        k = (0x10000, 0xFFFF, 0)[rel - 1]
+        other = draw(st.sampled_from(['BC', 'DE', 'SP', 'HL']))
+        if other == 'HL':
+            regs['HL'] = draw(st.sampled_from([0x8000, 0x0000, 0x7FFF, 0xFFFF]))
+        else:
+            regs[other] = (k - regs['HL']) & 0xFFFF
+        regs['IY'] = (k - regs['IX']) & 0xFFFF
     return regs
 
 
